@@ -7,6 +7,8 @@ import GojaModel.C09.Lemmas
 import GojaModel.C09.MechLemmas
 import GojaModel.C09.Link
 import GojaModel.C09.Layout
+import GojaModel.C09.MechReturn
+import GojaModel.C09.ReturnSpec
 import GojaModel.C09.Async
 
 namespace GojaModel.C09
@@ -701,5 +703,106 @@ theorem try_frame_instructions_site_independent (lo g : Mech.VM) (cp fp : Int) (
     Mech.restoreStacks (Mech.rebase lo g) (i + lo.iterStack.length) (r + lo.refStack.length)
       = ((Mech.restoreStacks g i r).1, Mech.rebase lo (Mech.restoreStacks g i r).2) :=
   ⟨Mech.pushTryFrame_rebase lo g cp fp, Mech.popTryFrame_rebase lo g, Mech.restoreStacks_rebase lo g i r⟩
+
+end GojaModel.C09
+
+namespace GojaModel.C09
+
+/-! ## return(v) when closing an iterator throws, and `step1`'s returning loop with every exit (MechReturn.lean;
+func.go:787 `enterNextFinallyFrame` and :863-905 as repaired by bf2a7fb / 5eca78e) -/
+
+/-- The full transcription of `enterNextFinallyFrame` (with the `return()`-throws branch) coincides, when no iterator
+throws, with the model the dispatch theorems are about. -/
+theorem enterNextFinallyFrame_full_agrees_without_throw (exOf : Nat → Nat) (n : Nat) (vm : Mech.VM) (cl : List Nat) :
+    Mech.enfLoop2 [] exOf n vm cl =
+      (match Mech.enterNextFinallyFrameLoop [] n vm cl with
+       | (true, cl', vm') => .entered cl' vm'
+       | (false, cl', vm') => .noFrame cl' vm') :=
+  Mech.enfLoop2_no_throw exOf n vm cl
+
+/-- Closing throws and no handler of the generator takes it (all frames of the activation dead): reported as uncaught
+with the activation already unwound down to `enterNext`'s marker frame. -/
+theorem return_close_throw_uncaught_unwinds (throwing : List Nat) (exOf : Nat → Nat) (n : Nat) (vm : Mech.VM) (cl : List Nat)
+    (lo : List Mech.TryFrame) (M tf : Mech.TryFrame) (rs : List Mech.TryFrame) (it : Nat)
+    (h : vm.tryStack = (lo ++ [M]) ++ (tf :: rs).reverse) (hd : ∀ t ∈ tf :: rs, t.dead)
+    (hc : tf.callStackLen = vm.callStack.length) (hm : M.catchPos = Mech.tryPanicMarker) (hmc : M.callStackLen < vm.callStack.length)
+    (hthrow : (Mech.restoreStacks vm tf.iterLen tf.refLen).1.find? (throwing.contains ·) = some it) :
+    ∃ cl', Mech.enfLoop2 throwing exOf (n + 1) vm cl = .uncaught cl'
+      { cur := { (vm.callStack.getD M.callStackLen default) with stash := M.stash },
+        stack := vm.stack.take M.sp, callStack := vm.callStack.take M.callStackLen,
+        iterStack := (vm.iterStack.take tf.iterLen).take M.iterLen, refStack := (vm.refStack.take tf.refLen).take M.refLen,
+        tryStack := lo ++ [M] } :=
+  Mech.enf2_close_throw_uncaught throwing exOf n vm cl lo M tf rs it h hd hc hm hmc hthrow
+
+/-- … after which `_return`'s epilogue (popTryFrame; popCtx) hands the caller its vm back EXACTLY. -/
+theorem return_close_throw_uncaught_restores_caller (vm0 vmU : Mech.VM) (M : Mech.TryFrame)
+    (hM : M = { callStackLen := vm0.callStack.length + 1, iterLen := vm0.iterStack.length, refLen := vm0.refStack.length,
+                sp := vm0.stack.length, stash := vm0.cur.stash, catchPos := Mech.tryPanicMarker, finallyPos := -1, finallyRet := -1 })
+    (vm : Mech.VM) (tf : Mech.TryFrame)
+    (hcs : vm.callStack = vm0.callStack ++ [vm0.cur, { pc := -2 }])
+    (hst : vm.stack.take vm0.stack.length = vm0.stack)
+    (hit : (vm.iterStack.take tf.iterLen).take vm0.iterStack.length = vm0.iterStack)
+    (hrf : (vm.refStack.take tf.refLen).take vm0.refStack.length = vm0.refStack)
+    (hU : vmU = { cur := { (vm.callStack.getD M.callStackLen default) with stash := M.stash },
+                  stack := vm.stack.take M.sp, callStack := vm.callStack.take M.callStackLen,
+                  iterStack := (vm.iterStack.take tf.iterLen).take M.iterLen, refStack := (vm.refStack.take tf.refLen).take M.refLen,
+                  tryStack := vm0.tryStack ++ [M] }) :
+    Mech.nextEpilogue vmU = vm0 :=
+  Mech.return_close_throw_uncaught_restores_caller vm0 vmU M hM vm tf hcs hst hit hrf hU
+
+/-- Closing throws and the generator has a handler: on the layout of ANY spec continuation the exception goes to the
+handler the spec's unwinding selects for a throw at that continuation, and `enterNextFinallyFrame` answers "continue". -/
+theorem return_close_throw_dispatch_matches_spec (throwing : List Nat) (exOf : Nat → Nat) (spOf : Nat → Nat)
+    (f : Mech.TryFrame → Mech.TryFrame) (hf : ∀ tf, (f tf).catchPos = tf.catchPos ∧ (f tf).finallyPos = tf.finallyPos)
+    (k : List Frame) (n : Nat) (vm : Mech.VM) (cl : List Nat) (lo : List Mech.TryFrame) (tf : Mech.TryFrame) (it : Nat) (h : Nat × Bool)
+    (hvm : vm.tryStack = lo ++ (Link.encode spOf k).map f) (hgl : vm.tryStack.getLast? = some tf)
+    (hc : tf.callStackLen = vm.callStack.length) (hs : Link.specThrowHandler k = some h)
+    (hthrow : (Mech.restoreStacks vm tf.iterLen tf.refLen).1.find? (throwing.contains ·) = some it) :
+    ∃ cl' vm', Mech.enfLoop2 throwing exOf (n + 1) vm cl = .handled (Link.outcomeOfSpec (some h)) cl' vm' :=
+  Mech.enf2_close_throw_dispatch_matches_spec throwing exOf spOf f hf k n vm cl lo tf it h hvm hgl hc hs hthrow
+
+/-- `step1`'s returning loop, full transcription: caught-not-halted come-backs are transparent (5eca78e). -/
+theorem step1_returning_full_caught_transparent (g : Mech.Gen) (throwing : List Nat) (exOf : Nat → Nat)
+    (pre rest : List (Mech.RunBack × Mech.VM)) (hpre : ∀ e ∈ pre, e.1 = .caught) :
+    Mech.step1Returning2 g throwing exOf (pre ++ rest) = Mech.step1Returning2 g throwing exOf rest :=
+  Mech.step1Returning2_caught_transparent g throwing exOf pre rest hpre
+
+/-- … when the last finally block has exited the activation is unwound BEFORE the result is reported, whether or not
+closing the remaining iterators threw (bf2a7fb). -/
+theorem step1_all_finallies_exit_unwinds_even_on_close_error (g : Mech.Gen) (throwing : List Nat) (exOf : Nat → Nat)
+    (vm : Mech.VM) (rest : List (Mech.RunBack × Mech.VM)) (cl : List Nat) (vm1 : Mech.VM)
+    (h : Mech.enterNextFinallyFrame2 throwing exOf vm = .noFrame cl vm1) :
+    ∃ vm2, (Mech.step1Returning2 g throwing exOf ((.finallyExit, vm) :: rest) = .returnCompleted vm2 ∨
+            Mech.step1Returning2 g throwing exOf ((.finallyExit, vm) :: rest) = .closeErrorAtEnd vm2) ∧
+      vm2.callStack = vm1.callStack.dropLast ∧ vm2.stack = vm1.stack.take (vm1.cur.sb - 1).toNat ∧
+      vm2.iterStack = vm1.iterStack.take g.iterStackLen ∧ vm2.refStack = vm1.refStack.take g.refStackLen :=
+  Mech.all_finallies_exit_unwinds_even_on_close_error g throwing exOf vm rest cl vm1 h
+
+/-- … and an uncaught close error ends the step at once with the already-unwound vm. -/
+theorem step1_close_error_uncaught_ends_step (g : Mech.Gen) (throwing : List Nat) (exOf : Nat → Nat) (vm : Mech.VM)
+    (rest : List (Mech.RunBack × Mech.VM)) (cl : List Nat) (vm1 : Mech.VM)
+    (h : Mech.enterNextFinallyFrame2 throwing exOf vm = .uncaught cl vm1) :
+    Mech.step1Returning2 g throwing exOf ((.finallyExit, vm) :: rest) = .closeErrorUncaught vm1 :=
+  Mech.close_error_uncaught_ends_step g throwing exOf vm rest cl vm1 h
+
+end GojaModel.C09
+
+namespace GojaModel.C09
+
+/-- Spec counterpart of `return_close_throw_uncaught_unwinds`: a throw that nothing in the continuation catches or
+intercepts unwinds all of it, closing the for-of iterators it crosses (their `return()` errors ignored). -/
+theorem uncaught_throw_unwinds_whole_continuation (e : Val) (k : List Frame) (env : List Val)
+    (h : Link.specThrowHandler k = none) :
+    Reach { ctl := .abrupt (.thr e), env := env, k := k } (thrLogs k) { ctl := .abrupt (.thr e), env := env, k := [] } :=
+  unwind_thr_uncaught e k env h
+
+/-- Spec: return(v) at a yield inside a for-of whose iterator's `return()` throws `e`, nothing in the body handling it —
+with enough fuel the call logs the close, THROWS `e` and leaves the generator completed (what bf2a7fb made goja do
+without corrupting the vm; compared on every run through the `ret = 2` iterators of the correspondence). -/
+theorem return_closing_throwing_iterator_throws (v e : Val) (l : Label) (x : Nat) (it : IterState) (body : List Stmt)
+    (k : List Frame) (env : List Val) (ctl : Ctl) (hc : (iterClose it).2 = some e) (hk : Link.specThrowHandler k = none) :
+    ∃ m, ∀ n, genCall (n + m) (.susp { ctl := ctl, env := env, k := .forOfK l x it body :: k } none) ⟨.ret, v⟩
+      = ((iterClose it).1 ++ thrLogs k, .t e, .completed) :=
+  return_cmd_close_throw_uncaught v e l x it body k env ctl hc hk
 
 end GojaModel.C09
